@@ -366,9 +366,9 @@ def I128.unmarshal (recv : I128) (s : List Char) : I128 × Bool :=
 
 /-! ## fmt.Scanner: `Scan` reads one blank-delimited token and passes `scanText token verb` to `FromString` -/
 
-/-- `len(text) > 1 && text[0] == '0' && strings.ContainsRune("bBoOxX", rune(text[1]))` -/
-def isBasePrefixed : List Char → Bool
-  | '0' :: c :: _ => c = 'b' ∨ c = 'B' ∨ c = 'o' ∨ c = 'O' ∨ c = 'x' ∨ c = 'X'
+/-- `len(text) > 1 && text[0] == '0' && strings.ContainsRune(letters, rune(text[1]))` -/
+def isBasePrefixed (letters : List Char) : List Char → Bool
+  | '0' :: c :: _ => letters.contains c
   | _ => false
 
 /-- `strings.TrimLeft(text, "0")` -/
@@ -376,12 +376,13 @@ def trimZeros : List Char → List Char
   | c :: t => if c = '0' then trimZeros t else c :: t
   | [] => []
 
-/-- the base prefix a scan verb stands for; `none` = the verb leaves the text alone -/
-def verbPrefix (verb : Char) : Option (List Char) :=
-  if verb = 'b' then some ['0', 'b']
-  else if verb = 'o' ∨ verb = 'O' then some ['0', 'o']
-  else if verb = 'd' then some []
-  else if verb = 'x' ∨ verb = 'X' then some ['0', 'x']
+/-- the base prefix a scan verb stands for and the letters that mark a base prefix after a leading zero under that
+    verb (`b`/`B` are hexadecimal digits under `x`); `none` = the verb leaves the text alone -/
+def verbPrefix (verb : Char) : Option (List Char × List Char) :=
+  if verb = 'b' then some (['0', 'b'], ['b', 'B'])
+  else if verb = 'o' ∨ verb = 'O' then some (['0', 'o'], ['o', 'O'])
+  else if verb = 'd' then some ([], ['b', 'B', 'o', 'O', 'x', 'X'])
+  else if verb = 'x' ∨ verb = 'X' then some (['0', 'x'], ['x', 'X'])
   else none
 
 /-- an optional leading sign peeled off: (sign, rest) -/
@@ -396,14 +397,14 @@ def dropPadding (t : List Char) : List Char :=
   | [] => if t ≠ [] ∧ [] ≠ t then ['0'] else t
 
 /-- `scanText(text, verb)`: for the verbs `b`, `o`/`O`, `x`/`X` the sign is peeled off and the verb's base prefix is
-    inserted unless the text already starts with `0` and one of `bBoOxX`; for `d` zero padding is dropped; every other
-    verb leaves the text alone -/
+    inserted unless the text already starts with `0` and a prefix letter of that base; for `d` a text with any base
+    prefix is left alone and zero padding is dropped; every other verb leaves the text alone -/
 def scanText (text : List Char) (verb : Char) : List Char :=
   match verbPrefix verb with
   | none => text
-  | some pfx =>
+  | some (pfx, letters) =>
     let sp := splitSign text
-    if isBasePrefixed sp.2 then sp.1 ++ sp.2
+    if isBasePrefixed letters sp.2 then sp.1 ++ sp.2
     else sp.1 ++ pfx ++ (if verb = 'd' then dropPadding sp.2 else sp.2)
 
 /-- `Uint128.Scan` / `Int128.Scan` on the token `tok` with the verb `verb` -/
